@@ -183,11 +183,25 @@ func layoutWorld(src *choice.Src, w *World, cfg *gen.Cfg, o WOpts, post []postMu
 		w.Files = append(w.Files, InFile{Path: "conf/README.txt", Content: "not yaml: [\n"})
 		w.Files = append(w.Files, InFile{Path: "conf/zz.yml", Content: "services: 5\n"})
 	}
-	if !o.LayoutFault || !src.Chance("layoutfault", 1, 5) {
+	if !o.LayoutFault || !src.Chance("layoutfault", 1, 4) {
 		return
 	}
 	first := w.Files[0].Path
-	switch src.Draw("layoutfaultk", 7) {
+	respell := func(p string) string {
+		switch src.Draw("respell", 4) {
+		case 0:
+			return "./" + p
+		case 1:
+			return strings.Replace(p, "/", "//", 1)
+		case 2:
+			if i := strings.Index(p, "/"); i > 0 {
+				return p[:i] + "/../" + p
+			}
+			return "./" + p
+		}
+		return "./" + strings.Replace(p, "/", "//", 1)
+	}
+	switch src.Draw("layoutfaultk", 9) {
 	case 0: // missing input as the only pattern
 		w.Patterns = []string{"does/not/exist.yaml"}
 		w.Class = "env:no-input"
@@ -202,14 +216,17 @@ func layoutWorld(src *choice.Src, w *World, cfg *gen.Cfg, o WOpts, post []postMu
 		w.Class = "env:bad-glob"
 	case 4: // the same file matched by two patterns (same spelling)
 		w.Patterns = append(w.Patterns, first)
-		if len(w.Files) > 1 && src.Bool("double2") {
+		if nfiles > 1 && src.Bool("double2") {
 			w.Patterns = append(w.Patterns, w.Files[1].Path)
 		}
 		w.Class = "env:double-match"
-	case 5: // the same file matched by two patterns (different spelling)
-		w.Patterns = append(w.Patterns, "./"+strings.Replace(first, "/", "//", 1))
+	case 5, 6, 7: // the same file matched by two patterns (different spelling of the path)
+		w.Patterns = append(w.Patterns, respell(first))
+		if nfiles > 1 && src.Bool("double2") {
+			w.Patterns = append(w.Patterns, respell(w.Files[nfiles-1].Path))
+		}
 		w.Class = "env:double-match"
-	case 6: // empty glob only
+	case 8: // empty glob only
 		w.Patterns = []string{"conf/*.nomatch", "other/*.yaml"}
 		w.Class = "env:no-input"
 	}
